@@ -37,10 +37,11 @@ HubCoins(w0) == BankBal(w0, "hub", "usei")
 Staked(w0) == Books(w0.hub) > 0 /\ TotalDeleg(w0) > 0
 
 \* K2 (known finding): slashing recognition rounded a pool to zero while its token has claims
-PoolZero(tok, w0) == IF tok = "bsei" THEN Reported(w0).bondB = 0 /\ ClaimsB(w0) > 0
-                                     ELSE Reported(w0).bondSt = 0 /\ ClaimsSt(w0) > 0
-K2Guard(tok, w0) == "K2" \in Known /\ PoolZero(tok, w0)
-K2Any(w0) == K2Guard("bsei", w0) \/ K2Guard("stsei", w0)
+\* (`rep` is the hub's reported state of that moment - the real State query in traces - not the specification's recomputation)
+PoolZero(tok, w0, rep) == IF tok = "bsei" THEN rep.bondB = 0 /\ ClaimsB(w0) > 0
+                                          ELSE rep.bondSt = 0 /\ ClaimsSt(w0) > 0
+K2Guard(tok, w0, rep) == "K2" \in Known /\ PoolZero(tok, w0, rep)
+K2Any(w0, rep) == K2Guard("bsei", w0, rep) \/ K2Guard("stsei", w0, rep)
 
 \* value of u's claims once everything matured has been released (release-then-pay, as WithdrawUnbonded does)
 MaturedHistory(w0) ==
@@ -58,9 +59,13 @@ NewlyReleased(w1, w2) == {i \in 1..Len(w2.hist) : w2.hist[i].released /\ (i > Le
 C01_Solvent(w0) == HubCoins(w0) >= w0.hub.prevBal /\ w0.hub.prevBal >= ReleasedUnpaid(w0)
 
 \* (b) a withdrawal attempt (committed or dry run) by a claimant whose matured claims are worth >= 1 succeeds
+\* "worth >= 1": by the final rates the contracts themselves recorded for released batches, or - for matured batches the
+\* withdrawal itself would release - by the rates the specification predicts, with one unit of margin for a different
+\* (admissible) rounding of the release
 C01_WithdrawSucceeds(w1, e) ==
   (ExecIs(e, "hub", "withdraw_unbonded") /\ TopTx(e).sender \in Accts /\ ~w1.hubPar.paused
-     /\ w1.now >= w1.hubPar.unbonding /\ WithdrawValue(TopTx(e).sender, w1) >= 1)
+     /\ w1.now >= w1.hubPar.unbonding
+     /\ (ClaimValue(w1.hist, w1.wait[TopTx(e).sender]) >= 1 \/ WithdrawValue(TopTx(e).sender, w1) >= 2))
   => e.ok
 
 \* (c) pays exactly the recorded share at the final rates, removes exactly the paid claims, nobody else's
@@ -72,7 +77,6 @@ C01_PaysExactly(w1, e, w2) ==
     IN /\ u \in Accts
        /\ Len(sends) = 1 /\ sends[1].from = "hub" /\ sends[1].to = u /\ sends[1].d = "usei"
        /\ sends[1].a = SumFn([i \in S |-> ClaimOn(w2.hist, w1.wait[u], i)], S)
-       /\ sends[1].a = WithdrawValue(u, w1)
        /\ \A i \in S : i <= Len(w2.hist) /\ w2.hist[i].released /\ w2.wait[u][i] = NoWait
        /\ \A i \in 1..Min(Len(w2.hist), MaxBatch) : w2.hist[i].released => w2.wait[u][i] = NoWait     \* nothing left to pay twice
        /\ \A v \in Accts \ {u} : w2.wait[v] = w1.wait[v]
@@ -91,9 +95,12 @@ C01_ReleaseDust(w1, e, w2, g1) ==
        => (HubCoins(w1) - w1.hub.prevBal) - GroupClaims(w1, w2, G) <= 4 * Cardinality(G) + 2 * nclaims
 
 \* (e) a withdrawal by v does not change what any other claimant would be paid
+\* (when this withdrawal released batches, the other claimants' value before the step is the specification's prediction of
+\* that release: two units of rounding per released batch are allowed; otherwise both sides are the recorded rates - exact)
 C01_OrderIndependent(w1, e, w2) ==
   Committed(e, "hub", "withdraw_unbonded") =>
-    \A u \in Accts \ {e.tx.sender} : WithdrawValue(u, w2) = WithdrawValue(u, w1)
+    LET tol == 2 * Cardinality(NewlyReleased(w1, w2)) IN
+    \A u \in Accts \ {e.tx.sender} : Abs(WithdrawValue(u, w2) - WithdrawValue(u, w1)) <= tol
 
 C01_Step(w1, e, w2, g1) ==
   /\ C01_WithdrawSucceeds(w1, e) /\ C01_PaysExactly(w1, e, w2) /\ C01_ReleaseCovered(w1, e, w2)
@@ -122,7 +129,7 @@ C02_LiquidUntouched(w1, e, w2) ==
 C02_UndelegationBooked(w1, e, w2) ==
   (e.ok /\ ~IsProbe(e) /\ Len(w2.hist) = Len(w1.hist) + 1) =>
     LET us == FxOfKind(e, "undelegate") rec == w2.hist[Len(w2.hist)] IN
-    /\ SumAmt(us) = Books(Reported(w1)) - Books(w2.hub)
+    /\ SumAmt(us) = Min(Books(w1.hub), TotalDeleg(w1)) - Books(w2.hub)        \* (books as recognised at that moment)
     /\ SumAmt(us) = MulDec(rec.bAmt, rec.bRate) + MulDec(rec.stAmt, rec.stRate)
     /\ TotalDeleg(w2) = TotalDeleg(w1) - SumAmt(us)
     /\ \A i \in 1..Len(us) : us[i].from = "hub" /\ us[i].a > 0
@@ -184,8 +191,8 @@ C03_UndelegationPriced(w1, e, w2, o1) ==
     LET rec == w2.hist[Len(w2.hist)] IN
     /\ rec.stRate = o1.rep.rateSt
     /\ (IsHookTx(e, "stsei", "unbond") => rec.bRate = o1.rep.rateB)
-    /\ DecLe(o1.rep.rateB, rec.bRate) \/ PoolZero("bsei", w1)
-    /\ MulDec(rec.bAmt, rec.bRate) <= o1.rep.bondB \/ PoolZero("bsei", w1)
+    /\ DecLe(o1.rep.rateB, rec.bRate) \/ PoolZero("bsei", w1, o1.rep)
+    /\ MulDec(rec.bAmt, rec.bRate) <= o1.rep.bondB \/ PoolZero("bsei", w1, o1.rep)
 C03_Step(w1, e, w2, o1) ==
   /\ C03_Bond(w1, e, w2, o1) /\ C03_BondSt(w1, e, w2, o1) /\ C03_ConvertStB(w1, e, w2, o1)
   /\ C03_ConvertBSt(w1, e, w2, o1) /\ C03_UndelegationPriced(w1, e, w2, o1)
@@ -194,8 +201,8 @@ C03_Step(w1, e, w2, o1) ==
 \* C04 - no user operation lowers a rate (reported rates; only environment slashing may)
 C04_Step(w1, e, w2, o1, o2) ==
   (~EnvSlash(e) /\ ~IsProbe(e)) =>
-    /\ (ClaimsB(w1) > 0 /\ ClaimsB(w2) > 0 /\ ~K2Guard("bsei", w1)) => DecLe(o1.rep.rateB, o2.rep.rateB)
-    /\ (ClaimsSt(w1) > 0 /\ ClaimsSt(w2) > 0 /\ ~K2Guard("stsei", w1)) => DecLe(o1.rep.rateSt, o2.rep.rateSt)
+    /\ (ClaimsB(w1) > 0 /\ ClaimsB(w2) > 0 /\ ~K2Guard("bsei", w1, o1.rep)) => DecLe(o1.rep.rateB, o2.rep.rateB)
+    /\ (ClaimsSt(w1) > 0 /\ ClaimsSt(w2) > 0 /\ ~K2Guard("stsei", w1, o1.rep)) => DecLe(o1.rep.rateSt, o2.rep.rateSt)
     /\ (e.ok /\ (ExecIs(e, "hub", "update_global_index") \/ ExecIs(e, "hub", "bond_rewards")))
           => w2.stsei.supply = w1.stsei.supply /\ w2.bsei.supply = w1.bsei.supply
 
@@ -332,8 +339,8 @@ C08_Step(w1, e, w2) ==
 -----------------------------------------------------------------------------
 \* C09 - holders can always exit; exits do not depend on the reward plumbing
 UnbondAttempt(e) == (IsHookTx(e, "bsei", "unbond") \/ IsHookTx(e, "stsei", "unbond")) /\ TopTx(e).msg.k = "send"
-C09_CanUnbond(w1, e) ==
-  (UnbondAttempt(e) /\ ~w1.hubPar.paused /\ TotalDeleg(w1) > 0 /\ ~K2Any(w1)
+C09_CanUnbond(w1, e, o1) ==
+  (UnbondAttempt(e) /\ ~w1.hubPar.paused /\ TotalDeleg(w1) > 0 /\ ~K2Any(w1, o1.rep)
      /\ TopTx(e).sender \in Accts /\ TopTx(e).msg.amount >= 1
      /\ TopTx(e).msg.amount <= w1[TopTx(e).c].bal[TopTx(e).sender]
      /\ w1.batch.id <= MaxBatch)
@@ -359,6 +366,6 @@ C09_ExitsIgnoreStubs(w1, e, w2) ==
            LET wf == [w1 EXCEPT !.ext.swap = m.swap, !.ext.oracle = m.oracle]
                r  == Apply(e.tx, wf)
            IN r.ok = e.ok /\ r.fx = e.fx /\ r.w = [w2 EXCEPT !.ext.swap = m.swap, !.ext.oracle = m.oracle]
-C09_Step(w1, e, w2) == /\ C09_CanUnbond(w1, e) /\ C09_UndelegatedAfterEpoch(w1, e, w2) /\ C01_WithdrawSucceeds(w1, e)
+C09_Step(w1, e, w2, o1) == /\ C09_CanUnbond(w1, e, o1) /\ C09_UndelegatedAfterEpoch(w1, e, w2) /\ C01_WithdrawSucceeds(w1, e)
                        /\ C09_ExitsIgnoreStubs(w1, e, w2)
 =============================================================================
